@@ -10,6 +10,7 @@ import (
 	"fmt"
 	"io"
 	"io/ioutil"
+	"math"
 	"net/http"
 	"sync"
 	"time"
@@ -43,6 +44,9 @@ type WebsocketTransport struct {
 	// markers cleanup sets are lost with the copy, and a second Close (the keepalive answering a ping that
 	// failed because the session was just closed) closed the queue channel again: a panic.
 	cleanupOnce *sync.Once
+	// pending is the rest of a message that did not fit into the buffer of the Read that took it off the queue:
+	// the following Reads hand it out before anything else.
+	pending []byte
 }
 
 func (t *WebsocketTransport) Connect() (string, error) {
@@ -50,6 +54,7 @@ func (t *WebsocketTransport) Connect() (string, error) {
 	t.readerDone = make(chan struct{})
 	t.closeCtx, t.closeFunc = context.WithCancel(context.Background())
 	t.cleanupOnce = new(sync.Once)
+	t.pending = nil
 
 	var ctx context.Context
 	ctx = context.Background()
@@ -92,7 +97,11 @@ func (t *WebsocketTransport) Connect() (string, error) {
 		return "", NewConnError(ServerDoesNotSupportXmppOverWebsocket, true)
 	}
 
-	wsConn.SetReadLimit(maxPacketSize)
+	// No limit on the size of a message, as there is none on the size of an element read over TCP: the
+	// websocket library answers a message over its limit (32768 bytes by default) by closing the connection
+	// itself, and the element and everything behind it were lost. maxPacketSize is the size of the decoder's
+	// read buffer only.
+	wsConn.SetReadLimit(math.MaxInt64)
 	t.wsConn = wsConn
 	t.startReader()
 
@@ -136,8 +145,7 @@ func (t WebsocketTransport) startReader() {
 				return
 			}
 			// One XMPP element is one websocket MESSAGE, which the peer or any intermediary may have
-			// split into several frames (RFC 6455 5.4): read all of it. The read limit of the
-			// connection bounds its size.
+			// split into several frames (RFC 6455 5.4): read all of it.
 			data, err := ioutil.ReadAll(reader)
 			if err != nil {
 				return
@@ -221,8 +229,16 @@ func (t *WebsocketTransport) Read(p []byte) (int, error) {
 		if t.logFile != nil && len(data) > 0 {
 			_, _ = fmt.Fprintf(t.logFile, "RECV:\n%s\n\n", data)
 		}
-		copy(p, data)
-		return len(data), nil
+		// A message may be longer than the buffer it is read into: the rest waits for the next Read
+		// (an io.Reader never reports more bytes than it was given room for).
+		n := copy(p, data)
+		t.pending = data[n:]
+		return n, nil
+	}
+	if len(t.pending) > 0 {
+		n := copy(p, t.pending)
+		t.pending = t.pending[n:]
+		return n, nil
 	}
 	select {
 	case <-ctx.Done():
